@@ -40,6 +40,38 @@ def pad_slice_path(path1, path2):
     return path2
 
 
+def _get_tree_links(inputs):
+    """parent links and children lists of all objects (and their collections) that can
+    be taken out of or put into a collection when `inputs` are assigned as parent or
+    children"""
+    # pylint: disable=protected-access
+    objs = []
+
+    def collect(inp):
+        if isinstance(inp, (list, tuple)):
+            for elem in inp:
+                collect(elem)
+        elif isinstance(inp, BaseGeo):
+            objs.append(inp)
+            objs.extend(getattr(inp, "_children", []))
+
+    collect(inputs)
+    colls = [obj for obj in objs if hasattr(obj, "_children")]
+    colls += [obj._parent for obj in objs if obj._parent is not None]
+    return [(obj, obj._parent) for obj in objs], [(c, list(c._children)) for c in colls]
+
+
+def _set_tree_links(links):
+    """put back the links remembered by `_get_tree_links`"""
+    # pylint: disable=protected-access
+    parents, children = links
+    for obj, parent in parents:
+        obj._parent = parent
+    for coll, kids in children:
+        coll._children = kids
+        coll._update_src_and_sens()
+
+
 class BaseGeo(BaseTransform):
     """Initializes position and orientation properties
     of an object in a global CS.
@@ -397,9 +429,16 @@ class BaseGeo(BaseTransform):
         # inputs that change the collection tree come last: when one of the other inputs
         # is rejected, the given children must not have been taken out of their collection
         # and the unfinished copy must not stay behind as a child of the given collection
-        for k, v in kwargs.items():
-            if k in tree_kwargs:
-                setattr(obj_copy, k, v)
+        tree_inputs = [(k, v) for k, v in kwargs.items() if k in tree_kwargs]
         if "parent" in kwargs:
-            obj_copy.parent = kwargs["parent"]
+            tree_inputs.append(("parent", kwargs["parent"]))
+        if tree_inputs:
+            # when one of the tree inputs itself is rejected, the links are put back
+            links = _get_tree_links([v for _, v in tree_inputs])
+            try:
+                for k, v in tree_inputs:
+                    setattr(obj_copy, k, v)
+            except Exception:
+                _set_tree_links(links)
+                raise
         return obj_copy
